@@ -31,6 +31,7 @@ Fixpoint V (T : ty) (d : list cand) (v : whnf) {struct T} : Prop :=
   | TArr T' => exists ts, v = VArr ts /\ Forall (TT (V T' d)) ts
   | TFun A B => forall t, TT (V A d) t -> forall n, ok_out (V B d) (app_out n v t)
   | TRec r => exists fs, v = VRec fs /\ Vrows r d fs
+  | TDict T' => exists fs, v = VRec fs /\ Forall (fun ft => TT (V T' d) (snd ft)) fs
   | TEnum tags => exists t, v = VTag t /\ In t tags
   | TVar i => nth i d (fun _ => False) v
   | TForall T' => forall R : cand, V T' (R :: d) v
@@ -94,6 +95,10 @@ Proof.
       eapply TT_ext; [|eassumption]. intros v'. symmetry. apply H.
   - (* TRec *)
     split; intros [fs [-> HF]]; exists fs; (split; [reflexivity|]); apply H in HF || apply H; assumption.
+  - (* TDict *)
+    split; intros [fs [-> HF]]; exists fs; (split; [reflexivity|]);
+      rewrite Forall_forall in *; intros ft Hin; specialize (HF ft Hin);
+      (eapply TT_ext; [|exact HF]); intros v'; [symmetry|]; apply H.
   - (* TVar *)
     destruct (Nat.leb (List.length d1) n) eqn:Hle; simpl.
     + pose proof (@nth_insert cand d1 d2 R (fun _ => False) n) as Hn. rewrite Hle in Hn.
@@ -141,6 +146,10 @@ Proof.
     + eapply ok_out_ext; [intros v'; apply H0|]. apply HV.
       eapply TT_ext; [|eassumption]. intros v'. symmetry. apply H.
   - split; intros [fs [-> HF]]; exists fs; (split; [reflexivity|]); apply H in HF || apply H; assumption.
+  - (* TDict *)
+    split; intros [fs [-> HF]]; exists fs; (split; [reflexivity|]);
+      rewrite Forall_forall in *; intros ft Hin; specialize (HF ft Hin);
+      (eapply TT_ext; [|exact HF]); intros v'; [symmetry|]; apply H.
   - (* TVar *)
     destruct (Nat.compare n (List.length d1)) eqn:Hc.
     + apply Nat.compare_eq in Hc. subst n.
